@@ -38,7 +38,7 @@ impl<'a> Reader<'a> {
             result.push(c);
             self.begin += 1;
             read_something = true;
-            if c == '\r' && self.peek() == b'\n' {
+            if c == '\r' && !self.at_eof() && self.peek() == b'\n' {
                 result.pop().unwrap();
                 self.begin += 1;
                 break;
@@ -93,6 +93,13 @@ impl<'a> Reader<'a> {
             self.eof = true;
         }
         self.end += bytes;
+    }
+
+    fn at_eof(&mut self) -> bool {
+        if self.begin == self.end {
+            self.refill();
+        }
+        self.eof
     }
 
     fn skip_whitespace(&mut self) {
